@@ -16,7 +16,7 @@ def consts_for(comp, sc, tso, tracing):
 
 def model_check(ctx, comp, sc, timeout=3000):
     c = consts_for(comp, sc, True, False)
-    mod = gen_mc(sc, "mc", c, cfg_lines=["SPECIFICATION Spec"] + ["INVARIANT " + i for i in comp["invariants"] + comp.get("mc_invariants", [])] +
+    mod = gen_mc(sc, "mc" + comp.get("variant", ""), c, cfg_lines=["SPECIFICATION " + comp.get("mc_spec", "Spec")] + ["INVARIANT " + i for i in comp["invariants"] + comp.get("mc_invariants", [])] +
                  ["CONSTRAINT " + x for x in comp.get("constraints", [])] + ["CHECK_DEADLOCK FALSE"])
     r = run_tlc(mod, coverage=True, timeout=timeout, heap=comp.get("heap", "16g"))
     ctx.add_tlc(r, mod, {k: v for k, v in c.items() if len(v) < 200})
@@ -63,7 +63,7 @@ def validate(ctx, comp, sc, tso, runs, workdir, tag):
         return
     c = consts_for(comp, sc, tso, True); c["__spec__"] = comp["spec"]
     c.update(comp.get("trace_consts", {}))
-    mod = gen_trace_module(comp["trace"], comp["spec"], "TV_%s_%d" % (sc["name"], tso), c, invariants=comp["invariants"])
+    mod = gen_trace_module(comp["trace"], comp["spec"], "TV_%s%s_%d" % (sc["name"], comp.get("variant", ""), tso), c, invariants=comp["invariants"])
     allev = []; bounds = []
     for seed, ev in runs:
         n = normalize(ev, **comp.get("normalize", {}))
@@ -132,11 +132,11 @@ def report_failures(ctx, comp, fails):
 def spec_to_code(ctx, comp, exe, sc, tso, n, workdir):
     """tlc -simulate behaviours -> schedules -> forced onto the real code; the resulting traces are validated too."""
     c = consts_for(comp, sc, tso, True)
-    base = gen_mc(sc, "simbase_%d" % tso, c, cfg_lines=[])
+    base = gen_mc(sc, "simbase%s_%d" % (comp.get("variant", ""), tso), c, cfg_lines=[])
     t = open(os.path.join(SPEC, "trace", "Sim.tla.in")).read()
-    mod = "SIM_%s_%d" % (sc["name"], tso)
+    mod = "SIM_%s%s_%d" % (sc["name"], comp.get("variant", ""), tso)
     with open(os.path.join(GEN, mod + ".tla"), "w") as f:
-        f.write(t.replace("@MODULE@", mod).replace("@BASE@", base))
+        f.write(t.replace("@MODULE@", mod).replace("@BASE@", base).replace("@NEXT@", comp.get("mc_next", "Next")))
     cfgtxt = open(os.path.join(GEN, base + ".cfg")).read()
     with open(os.path.join(GEN, mod + ".cfg"), "w") as f:
         f.write("SPECIFICATION SSpec\n" + cfgtxt + "INVARIANT Emit\nCHECK_DEADLOCK FALSE\n")
@@ -167,7 +167,10 @@ def spec_to_code(ctx, comp, exe, sc, tso, n, workdir):
         if rc != 0:
             fails.append({"seed": 100000 + i, "tso": tso, "rc": rc, "stderr": se[-500:], "trace": tp, "env": env, "scenario": sc["name"], "schedule": s})
         else:
-            runs.append((100000 + i, read_trace(tp))); os.unlink(tp)
+            ev = read_trace(tp)
+            if any(e.get("op") == "replay_diverged" for e in ev):
+                ctx.extra["spec_behaviours_not_followed_exactly"] = ctx.extra.get("spec_behaviours_not_followed_exactly", 0) + 1
+            runs.append((100000 + i, ev)); os.unlink(tp)
         os.unlink(sp)
     for f in fails[:max(0, min(2, MAXV - len(ctx.violations)))]:
         d = ctx.viol_dir()
@@ -186,7 +189,7 @@ def spec_to_code(ctx, comp, exe, sc, tso, n, workdir):
 
 def run_component(ctx, comp, scenarios, nseeds, nsim, mc=True, mc_timeout=3000):
     wd = os.path.join(ctx.outdir, "work"); shutil.rmtree(wd, ignore_errors=True); os.makedirs(wd)
-    exe = build_driver(comp["driver"][:-2], comp["driver"], defines=comp.get("defines", ()), lb=comp.get("lb", True), tag=ctx.pid + "_" + comp["driver"][:-2])
+    exe = build_driver(comp.get("drvname", comp["driver"][:-2]), comp["driver"], defines=comp.get("defines", ()), lb=comp.get("lb", True), tag=ctx.pid + "_" + comp.get("drvname", comp["driver"][:-2]))
     only = os.environ.get("VERIF_SCEN")
     for scn in scenarios:
         if only and scn not in only.split(","):
@@ -220,7 +223,7 @@ def replay(ctx, comp, path):
     meta = json.load(open(os.path.join(path, "meta.json")))
     sc = load_scenario(meta["scenario"])
     wd = os.path.join(ctx.outdir, "replay_work"); shutil.rmtree(wd, ignore_errors=True); os.makedirs(wd)
-    exe = build_driver(comp["driver"][:-2], comp["driver"], defines=comp.get("defines", ()), lb=comp.get("lb", True), tag=ctx.pid + "_" + comp["driver"][:-2])
+    exe = build_driver(comp.get("drvname", comp["driver"][:-2]), comp["driver"], defines=comp.get("defines", ()), lb=comp.get("lb", True), tag=ctx.pid + "_" + comp.get("drvname", comp["driver"][:-2]))
     tso = meta["tso"]
     if "schedule" in meta:
         pf = program_file(comp, sc, os.path.join(wd, "prog_%s.txt" % sc["name"]))
